@@ -15,6 +15,10 @@ import Bng.Model.Nat
     spawn alloc k1         => blocked | ok p3 …     (a goroutine calls AllocateNAT; `blocked` = it passed the precheck)
     spawn dealloc k1       => blocked
     unhold                 => <result> ; <result> ; …  | -      (poolMu released, queued callers run in FIFO order)
+    buffer                 => ok             (from now on the harness does not flush the logger after each call)
+    flushhold              => held | idle    (Logger.Flush + FlushPortBlocks start in a goroutine; the writer parks inside the
+                                              first Write; `idle` = nothing was buffered)
+    flushrelease           => ok | <rec>,…   (the parked flush completes, a final flush follows; every record since `buffer`)
     stress <subs> <g> <n> <seed> => table=k1:p3:<start>:<end>,… | -   (g goroutines, n random calls each, in parallel;
                                      not replayed on the model: the monitor judges the final table and the log; ends the sequence)
 
@@ -31,8 +35,14 @@ inductive Pending where
 
 structure St where
   model : Option Cgnat.State := none
-  mon : Spec.Mon := {}
+  mon : Spec.Mon × Spec.Ledger := ({}, {})
   held : Bool := false
+  /-- `buffer` … `flushrelease`: the harness does not flush the logger after every call; records are
+      printed (by model and implementation) only at `flushrelease` -/
+  buffering : Bool := false
+  flushHeld : Bool := false
+  mark : Nat := 0          -- length of the model log when records were last printed
+  bufCalls : Nat := 0
   pending : List Pending := []
   /-- after `stress` the model no longer knows the state: later lines are echoed, not compared -/
   free : Bool := false
@@ -99,7 +109,14 @@ def parseBlk (toks : List String) : Option Spec.Blk :=
   | [p, lo, hi, _, _] => do pure { pub := ← parseTagged 'p' p, lo := ← lo.toNat?, hi := ← hi.toNat? }
   | _ => none
 
-def feed (c : Cfg) (m : Spec.Mon) (evs : List Spec.Ev) : Spec.Mon × List Spec.Verdict := Spec.feed c m evs
+/-- both halves of the monitor: the block/attribution clauses and the record ledger -/
+def feed (c : Cfg) (m : Spec.Mon × Spec.Ledger) (evs : List Spec.Ev) : (Spec.Mon × Spec.Ledger) × List Spec.Verdict :=
+  let r1 := Spec.feed c m.1 evs
+  let r2 := Spec.feedL c m.2 evs
+  ((r1.1, r2.1), r1.2 ++ r2.2)
+
+/-- at most this many calls between `buffer` and `flushrelease` (the logger flushes by itself at 50 buffered records) -/
+def maxBufCalls : Nat := 40
 
 /-- the API event of one call's answer -/
 def apiEvent (isAlloc : Bool) (k : Nat) (ans : String) : List Spec.Ev :=
@@ -151,7 +168,18 @@ def step (st : St) (toks : List String) (impl : String) : St × LineResult :=
       -- plain (sequential) calls
       let plain := fun (op : Op) (shown : Obs → String) (evs : List Spec.Ev) =>
         if st.held then (st, ({ modelObs := "badop" } : LineResult)) else
+        let isCall := match op with
+          | .alloc _ => true
+          | .dealloc _ => true
+          | _ => false
+        if st.buffering && isCall && st.bufCalls ≥ maxBufCalls then (st, { modelObs := "badop" }) else
         let (m', o) := Cgnat.step m op
+        if st.buffering then
+          -- the records stay in the logger's buffer: only the answer is observed now
+          let (mon', vs) := feed c st.mon (evs ++ logEvs)
+          ({ st with model := some m', mon := mon', bufCalls := if isCall then st.bufCalls + 1 else st.bufCalls },
+           { modelObs := shown o, viols := mkViols vs })
+        else
         let (mon', vs) := feed c st.mon (evs ++ logEvs ++ [.settled])
         ({ st with model := some m', mon := mon' },
          { modelObs := withLog (shown o) (newEntries m m'), viols := mkViols vs })
@@ -182,11 +210,11 @@ def step (st : St) (toks : List String) (impl : String) : St × LineResult :=
       | ["stress", a, b, n, sd] =>
         match a.toNat?, b.toNat?, n.toNat?, sd.toNat? with
         | some _, some _, some _, some _ =>
-          if st.held then (st, { modelObs := "badop" }) else
+          if st.held || st.buffering then (st, { modelObs := "badop" }) else
           let tab := match api.splitOn "=" with
             | ["table", t] => if t == "-" then [] else (t.splitOn ",").filterMap parseTableEntry
             | _ => []
-          let evs := logEvs ++ [Spec.Ev.forget] ++ tab.map (fun (k, b) => Spec.Ev.got k b) ++ [.settled]
+          let evs := [Spec.Ev.blind] ++ logEvs ++ [Spec.Ev.forget] ++ tab.map (fun (k, b) => Spec.Ev.got k b) ++ [.settled]
           let (mon', vs) := feed c st.mon evs
           ({ st with mon := mon', free := true }, { modelObs := impl, viols := mkViols vs })
         | _, _, _, _ => (st, { modelObs := "badop" })
@@ -194,17 +222,21 @@ def step (st : St) (toks : List String) (impl : String) : St × LineResult :=
       | ["spawn", "alloc", k] => match parseTagged 'k' k with
         | some k =>
           if !st.held then (st, { modelObs := "badop" }) else
+          if st.buffering && st.bufCalls ≥ maxBufCalls then (st, { modelObs := "badop" }) else
           let (_, o) := allocPre m k
           let (mon', vs) := feed c st.mon (apiEvent true k api)
           let pend := match o with
             | .miss => st.pending ++ [.commit k]
             | _ => st.pending
-          ({ st with mon := mon', pending := pend }, { modelObs := showObs o, viols := mkViols vs })
+          ({ st with mon := mon', pending := pend, bufCalls := if st.buffering then st.bufCalls + 1 else st.bufCalls },
+           { modelObs := showObs o, viols := mkViols vs })
         | none => (st, { modelObs := "badop" })
       | ["spawn", "dealloc", k] => match parseTagged 'k' k with
         | some k =>
           if !st.held then (st, { modelObs := "badop" }) else
-          ({ st with pending := st.pending ++ [.dealloc k] }, { modelObs := "blocked" })
+          if st.buffering && st.bufCalls ≥ maxBufCalls then (st, { modelObs := "badop" }) else
+          ({ st with pending := st.pending ++ [.dealloc k], bufCalls := if st.buffering then st.bufCalls + 1 else st.bufCalls },
+           { modelObs := "blocked" })
         | none => (st, { modelObs := "badop" })
       | ["unhold"] =>
         if !st.held then (st, { modelObs := "badop" }) else
@@ -216,9 +248,29 @@ def step (st : St) (toks : List String) (impl : String) : St × LineResult :=
           match p with
           | .commit k => apiEvent true k ans
           | .dealloc k => apiEvent false k ans
+        if st.buffering then
+          let (mon', vs) := feed c st.mon (evs ++ logEvs)
+          ({ st with model := some m', mon := mon', held := false, pending := [] },
+           { modelObs := shown, viols := mkViols vs })
+        else
         let (mon', vs) := feed c st.mon (evs ++ logEvs ++ [.settled])
         ({ st with model := some m', mon := mon', held := false, pending := [] },
          { modelObs := withLog shown (newEntries m m'), viols := mkViols vs })
+      | ["buffer"] =>
+        if st.buffering || st.held then (st, { modelObs := "badop" }) else
+        ({ st with buffering := true, mark := m.log.length, bufCalls := 0 }, { modelObs := "ok" })
+      | ["flushhold"] =>
+        -- a flush is started and parked inside its first Write: `held` when there is something to write
+        if !st.buffering || st.flushHeld || st.held then (st, { modelObs := "badop" }) else
+        if m.log.length > st.mark then ({ st with flushHeld := true }, { modelObs := "held" })
+        else (st, { modelObs := "idle" })
+      | ["flushrelease"] =>
+        -- the parked flush (if any) completes, everything is flushed: all records since `buffer`, in order
+        if !st.buffering || st.held then (st, { modelObs := "badop" }) else
+        let recs := (m.log.take (m.log.length - st.mark)).reverse
+        let (mon', vs) := feed c st.mon (logEvs ++ [.settled])
+        ({ st with mon := mon', buffering := false, flushHeld := false, mark := m.log.length, bufCalls := 0 },
+         { modelObs := withLog "ok" recs, viols := mkViols vs })
       | _ => (st, { modelObs := "badop" })
 
 def component : Component := { σ := St, init := {}, step := step }
